@@ -83,13 +83,14 @@ func checkPlanMore(prop, tier string, n func(int, int) int, comp map[string][]st
 		return &checkPlan{Prop: prop, Level: "exploration", BudgetS: n(300, 3000), Measure: "nontrivial",
 			Batches: []batchSpec{
 				{Label: "sched", Engine: "sched", Prop: "C10", Runs: n(2000, 60000), FaultFree: true, Share: 2},
-				{Label: "sched-finegrain", Engine: "sched", Prop: "C10", Mode: "fg", Bin: "fg", Runs: n(0, 20000), FaultFree: true, Share: 2},
-				{Label: "finegrain-pair-sweep", Engine: "sched", Prop: "C10", Mode: "fgpair:%d/1000000", Bin: "fg", Runs: n(0, 1500), FaultFree: true},
+				{Label: "sched-finegrain", Engine: "sched", Prop: "C10", Mode: "fg", Bin: "fg", Runs: n(300, 20000), FaultFree: true, Share: 2},
+				{Label: "finegrain-pair-sweep", Engine: "sched", Prop: "C10", Mode: "fgpair:%d/1000000", Bin: "fg", Runs: n(128, 1500), FaultFree: true},
 				{Label: "race-gomaxprocs1", Engine: "sched", Prop: "C10", Mode: "free", Race: true, MaxProcs: 1, Runs: n(20, 150), FaultFree: true},
 				{Label: "race-gomaxprocs4", Engine: "sched", Prop: "C10", Mode: "free", Race: true, MaxProcs: 4, Runs: n(24, 150), FaultFree: true},
 				{Label: "race-gomaxprocs16", Engine: "sched", Prop: "C10", Mode: "free", Race: true, MaxProcs: 16, Runs: n(30, 200), FaultFree: true},
+				{Label: "race-gomaxprocs64", Engine: "sched", Prop: "C10", Mode: "free", Race: true, MaxProcs: 64, Runs: n(12, 100), FaultFree: true},
 			},
-			Rule: "sched batch: one run = 2-8 simulated clients (real goroutines), each with a seeded list of Lint*Ex (own parsed objects), Filter, Names, Sources, ByName, BySource, WriteJSON, DefaultConfiguration and per-kind lookups over 1-4 shared registries (global and pre-filtered, with different configurations naming every configurable lint); exactly one client runs at a time and a seeded schedule (round-robin, Bernoulli p in {0.01,0.1,0.5}, PCT depth 1-5, or targeted: every client parked at the same lifecycle phase of the same lint) decides at every yield site (lint constructor, Configure, CheckApplies, Execute, registry reads) who runs next; every op's result must equal the serial twin's (same op lists, client after client, in a fresh process). race batches: the same kind of workload with 4-16 free-running clients under the Go race detector at GOMAXPROCS 1/4/16 (race report, runtime fatal error, deadlock or mismatch with the serial twin = violation). distinct_nontrivial = distinct schedules with at least one preemption inside a Lint op while the resumed client is also inside a Lint op.",
+			Rule: "sched batch: one run = 2-8 simulated clients (real goroutines), each with a seeded list of Lint*Ex (own parsed objects), Filter, Names, Sources, ByName, BySource, WriteJSON, DefaultConfiguration and per-kind lookups over 1-4 shared registries (global and pre-filtered, with different configurations naming every configurable lint); exactly one client runs at a time and a seeded schedule (round-robin, Bernoulli p in {0.01,0.1,0.5}, PCT depth 1-5, or targeted: every client parked at the same lifecycle phase of the same lint) decides at every yield site (lint constructor, Configure, CheckApplies, Execute, registry reads) who runs next; every op's result must equal the serial twin's (same op lists, client after client, in a fresh process). race batches: the same kind of workload with 4-16 free-running clients under the Go race detector at GOMAXPROCS 1/4/16 and 64 (more processors than the machine has) (race report, runtime fatal error, deadlock or mismatch with the serial twin = violation). distinct_nontrivial = distinct schedules with at least one preemption inside a Lint op while the resumed client is also inside a Lint op.",
 			Assumption: []string{
 				"SetConfiguration is excluded from the concurrent alphabet (the property speaks of reading the registry)",
 				"yield sites are at lifecycle grain: two lint bodies are interleaved only at their boundaries in the sched batch; the race batches run bodies truly in parallel but their thread schedule is not controlled",
